@@ -856,6 +856,81 @@ def records_cases(ctx, section, maxrecs, colon="first", expect_violation=False, 
     return cases
 
 
+KV_TYPES = {
+    "General": dict(AudioFilename="path", AudioLeadIn="i32", PreviewTime="i32", SampleSet="bank", SampleVolume="i32", StackLeniency="f32",
+                    Mode="mode", LetterboxInBreaks="flag", SpecialStyle="flag", WidescreenStoryboard="flag", EpilepsyWarning="flag",
+                    SamplesMatchPlaybackRate="flag", Countdown="countdown", CountdownOffset="i32"),
+    "Editor": dict(DistanceSpacing="f64", BeatDivisor="i32", GridSize="i32", TimelineZoom="f64"),
+    "Metadata": dict(Title="str", Artist="str", Creator="str", Version="str", Source="str", Tags="str", BeatmapID="i32", BeatmapSetID="i32"),
+    "Difficulty": dict(HPDrainRate="f32", CircleSize="f32", OverallDifficulty="f32", ApproachRate="f32", SliderMultiplier="f64", SliderTickRate="f64"),
+}
+
+
+def rand_records_module(ctx, section, nrecs, salt=0):
+    """Randomised alphabet for the key/value sections of Records.tla: integer payloads of every magnitude, decimals around the
+    clamp bounds, every value class; single-precision fields stay below 100 (two decimals are then exact to 1e-3 in the
+    projection), decimals of double-precision fields below 200000."""
+    import random
+    rnd = random.Random(ctx.seed * 4409 + 3 + salt * 32452843 + sum(map(ord, section)))
+    types = KV_TYPES[section]
+    keys = sorted(types)
+    recs = []
+    for _ in range(nrecs):
+        k = rnd.choice(keys)
+        ty = types[k]
+        if ty in ("str", "path"):
+            v = ("str", 0, rnd.choice(["a", "a b", "x:y", "p\\\\q", "\\\"q\\\"", "Soft", "[General]", "7", "-1"]))
+        else:
+            cls = rnd.choice(["int", "int", "int", "float", "float", "max", "min", "over", "under", "big", "nan", "inf", "empty", "garbage", "cmt", "colon", "name"])
+            if ty in ("f32", "f64") and cls in ("max", "min"):
+                cls = "float"                      # (2^31-1) * 100 does not fit TLC's integers
+            if ty == "f32" and cls in ("over", "under"):
+                cls = "float"                      # 2^31 is not representable in f32: outcome not determined by the statement
+            if cls == "int":
+                lim = 99 if ty == "f32" else (200000 if ty == "f64" else 2147483647)
+                v = ("int", rnd.choice([0, 1, 2, 3, 4, 5, 6, 7, 8, -1, rnd.randint(-lim, lim), rnd.randint(-min(lim, 300), min(lim, 300))]), "")
+            elif cls == "float":
+                lim = 9999 if ty == "f32" else 19999999
+                v = ("float", rnd.choice([25, 39, 40, 41, 49, 50, 51, 359, 360, 361, 799, 800, 801, 950, 1000, rnd.randint(-lim, lim), rnd.randint(0, 1100)]), "")
+            elif cls in ("cmt", "colon"):
+                v = (cls, rnd.randint(0, 9), "")
+            elif cls == "name":
+                v = ("str", 0, rnd.choice(["Soft", "Half speed", "Normal", "Drum", "None", "soft", "Double speed", "half speed"]))
+            else:
+                v = (cls, 0, "")
+        if rnd.random() < 0.05:
+            k = rnd.choice(["Foo", "mode", k.lower(), k + "x"])
+        recs.append('[k |-> "%s", vc |-> "%s", vi |-> %d, vs |-> "%s"]' % (k, v[0], v[1], v[2]))
+    text = ("----------------------------- MODULE RandRecords -----------------------------\n"
+            "(* generated by bin/plans.py (rand_records_module) from VERIF_SEED = %d for section %s - do not edit.  A randomised\n"
+            "   alphabet for Records: the model is the oracle, the values it is asked about change with the seed. *)\n"
+            "EXTENDS Records\n\nRandRAlpha == <<\n    %s >>\n"
+            "=============================================================================\n") % (ctx.seed, section, ",\n    ".join(recs))
+    path = os.path.join(SPEC, "RandRecords.tla")
+    old = open(path).read() if os.path.exists(path) else None
+    if old != text:
+        with open(path, "w") as fh:
+            fh.write(text)
+
+
+def records_rand_cases(ctx, section, nrecs, maxrecs, salt=0):
+    rand_records_module(ctx, section, nrecs, salt)
+    sany(ctx, "RandRecords")
+    name = "MC_RandRecords_%s_%d_%d" % (section, nrecs, maxrecs)
+    cases = os.path.join(ctx.work, name + ".ndjson")
+    body = cases + ".body"
+    cfg = dict(spec="Spec", invariants=["LastWins", "ARRule", "Ranges"], properties=["RejectStutters"],
+               constants=dict(Section='"%s"' % section, MaxRecs=str(maxrecs), Emit="TRUE", ColonSplit='"first"', Alpha="<-RandRAlpha"))
+    r = tlc(ctx, "RandRecords", name, cfg, workers=14, timeout=3000, cases_file=body)
+    with open(cases, "w") as f:
+        f.write(json.dumps({"alpha": r["alpha"]}) + "\n")
+        with open(body) as b:
+            for ln in b:
+                f.write(ln)
+    os.remove(body)
+    return cases
+
+
 def check_C11(ctx):
     thorough = ctx.tier == "thorough"
     sany(ctx, "Records")
@@ -866,6 +941,13 @@ def check_C11(ctx):
         f = records_cases(ctx, sec, n)
         summ = harness(ctx, ["records", "replay", "--spellings", "2"], cases_file=f, name="records-" + sec, timeout=3600)
         report_mismatches(ctx, summ, "[%s] records decode differently from the format rules of Records.tla" % sec)
+    # randomised alphabets for the key/value sections (values drawn with the seed; the model is the oracle)
+    for sec in ("General", "Editor", "Metadata", "Difficulty"):
+        for salt in ([2, 1, 0] if thorough else [0]):
+            f = records_rand_cases(ctx, sec, 70, 2, salt=salt)
+            summ = harness(ctx, ["records", "replay", "--spellings", "1"], cases_file=f, name="records-rand-" + sec, timeout=3600)
+            report_mismatches(ctx, summ, "[%s] records decode differently from the format rules of Records.tla (randomised alphabet %d)" % (sec, salt))
+            os.remove(f)
     # impl -> spec: long random record sequences per section
     sany(ctx, "Trace_Records")
     for sec in RECORD_SECTIONS:
